@@ -8,7 +8,8 @@ Decided part (structural, on the resolved MIR):
        compiler's running maximum.
   E2c  the interpreter's outer loop polls the interrupt flag on every cycle; the inner loop leaves on calls.
   E2e  a tail call pops the caller's frame and slots before it enters the callee.
-Not decided: that the compile-time bound is a bound (see E2d), that emitted jumps are forward-only."""
+  E2d  Instruction::adjust (the compiler's static stack account) is never below the interpreter's net stack effect.
+Not decided: that the compiler calls emit for every instruction it produces in the right order, forward-only jumps."""
 from . import flow
 from .common import table, variant_index, enum_switches
 from .facts import op_place, op_local
@@ -512,8 +513,10 @@ def run(fb, rep, tier, cfg):
         "raw allocator, writers of Gc.allocated_memory; (E2b) dominance of the stack-limit comparison over every push to "
         "Stack.frames and provenance of the per-function bound back to the compiler's running maximum; (E2c) SCC check that "
         "every cycle of the outer interpreter loop polls Thread::interrupted and that Call/TailCall leave the dispatch loop; "
-        "(E2e) in the TailCall arm exit_scope and remove_range dominate do_call. It does not decide that the compile-time "
-        "bound really bounds run-time stack use for every program (partly E2d) nor promptness in wall-clock terms.")
+        "(E2e) in the TailCall arm exit_scope and remove_range dominate do_call; (E2d) for each of the 40 fixed-effect instructions "
+        "the net value-stack effect of its interpreter arm, summed along every path to the next fetch, equals (or is below) the "
+        "linear expression Instruction::adjust returns, six data-dependent instructions being listed with their reason. It does not "
+        "decide that the compiler's running stack_size models every emitted sequence, nor promptness in wall-clock terms.")
     rep.assumptions += [
         "rustc nightly MIR construction and callee resolution are trusted",
         "value flow inside a function is tracked flow-insensitively per local (union of definitions)",
@@ -524,9 +527,5 @@ def run(fb, rep, tier, cfg):
     e2b(fb, rep)
     e2c(fb, rep)
     e2e(fb, rep)
-    if tier == "thorough":
-        try:
-            from . import e2d
-            e2d.run(fb, rep)
-        except ImportError:
-            pass
+    from . import e2d
+    e2d.run(fb, rep)
